@@ -233,6 +233,22 @@ def check_text(doc, empty, layout):
         elif list(getattr(m, "errors", ["<none>"])) != errs:
             out.append({"case": case, "diagnosis": "errors-attribute",
                         "detail": "text %r: expected errors %r, got %r" % (text, errs, getattr(m, "errors", None))})
+        elif sum(1 for k in layout if layout[k] != CANON.get(k)) <= 1 and layout.get("eq", "same") == "same":
+            # the result belongs to the caller: later loads (same parser object, and the convenience
+            # function) must not reach back into it (does not depend on the layout: checked on the
+            # canonical layout and its single deviations other than 'eq')
+            import pvl
+            loaders.outcome("OMNI", "q = 1\n\n\nr =\ns =\n")
+            try:
+                pvl.loads("z = 2\n")
+                pvl.loads("\n\ny =\n")
+            except Exception:  # noqa: BLE001
+                pass
+            got2 = [(k, conv(v)) for k, v in m]
+            if typed(got2) != typed(tree) or list(getattr(m, "errors", ["<none>"])) != errs:
+                out.append({"case": case, "diagnosis": "result-changed-by-a-later-load",
+                            "detail": "text %r: after two other loads the module reads %r with errors %r, "
+                                      "expected %r / %r" % (text, got2, getattr(m, "errors", None), tree, errs)})
     for d in impl.STRICT:
         r = loaders.outcome(d, text)
         if r[0] == "ok":
